@@ -112,11 +112,12 @@ def runs_for(tier):
         # server_connect fed by the real instances' listen_addrs
         dict(tag="_connect", started=True, maxops=4 if q else 5,
              world=mk_world(["regular@8080", "dns@5353", "reverse:https://a.example@0",
-                             "reverse:udp://a.example:9@127.0.0.1:8083", "regular@127.0.0.2:8081"]),
+                             "reverse:udp://a.example:9@127.0.0.1:8083", "regular@127.0.0.2:8081"], fp6=True),
              configs=[(1, 2), (3,), (4, 5)], ext=[], alone=[],
              dests=[dest("127.0.0.1", 8080, "tcp"), dest("127.0.0.1", 8080, "udp"), dest("localhost", 5353, "udp"),
-                    dest("::1", 40001, "tcp"), dest("127.0.0.1", 8083, "tcp"), dest("127.0.0.1", 9999, "tcp")]
-             + ([] if q else [dest("127.0.0.1", 40001, "udp"), dest("127.0.0.1", 8083, "udp"), dest("127.0.0.1", 8081, "tcp")]),
+                    dest("::1", 40003, "tcp"), dest("127.0.0.1", 8083, "tcp"), dest("127.0.0.1", 9999, "tcp")]
+             + ([] if q else [dest("127.0.0.1", 40004, "udp"), dest("127.0.0.1", 8083, "udp"), dest("127.0.0.1", 8081, "tcp"),
+                              dest("127.0.0.1", 40002, "tcp")]),
              ops=["SetMode", "Connect", "SetServer"]),
         # no IPv6; listen_host / listen_port options
         dict(tag="_nov6", started=True, maxops=3 if q else 4,
